@@ -126,7 +126,7 @@ class NaropFunction(AbstractFunction):
 
     def __call__(self, *args, **kwargs):
         evaluated_args = [
-            x(*args, **kwargs) if isinstance(x, Function)
+            x(*args, **kwargs) if isinstance(x, AbstractFunction)
             else x for x in self.args]
         return self.selector(self.a(*args, **kwargs), *evaluated_args)
 
